@@ -1,5 +1,5 @@
 """Development aid: store a confirmed seeded change under /verif/seeded/<id>/ (patch.diff, demo.py, meta.json).
-Usage: keep_seed.py <worktree> <id> --caught C02:C02.R3[,C02.R4] [C01:C01.R4b ...] [--confirm file.json ...]
+Usage: keep_seed.py <worktree> <id> --caught C02:C02.R3[,C02.R4] [C01:C01.R4b ...] [--confirm file.json ...] [--first "caught | MISSED -> ..."]
 meta.json: property broken, what the change needs in order to manifest, what was run to confirm it, which rules catch it."""
 import json
 import os
@@ -12,9 +12,10 @@ VERIF = os.path.dirname(os.path.dirname(HERE))
 args = sys.argv[1:]
 wt, sid = args[0], args[1]
 caught, confirms = {}, []
+first_scan = "caught"
 mode = None
 for a in args[2:]:
-    if a in ("--caught", "--confirm"):
+    if a in ("--caught", "--confirm", "--first"):
         mode = a
         continue
     if mode == "--caught":
@@ -22,6 +23,8 @@ for a in args[2:]:
         caught[p] = rules.split(",")
     elif mode == "--confirm":
         confirms.append(json.load(open(a)))
+    elif mode == "--first":
+        first_scan = a
 seed = os.path.join(wt, "_seed")
 dst = os.path.join(VERIF, "seeded", sid)
 os.makedirs(dst, exist_ok=True)
@@ -50,6 +53,7 @@ meta = {
     },
     "agent_report": agent.get("tests_run"),
     "caught_by": caught,
+    "first_scan": first_scan,
 }
 json.dump(meta, open(os.path.join(dst, "meta.json"), "w"), indent=1)
 print("kept", dst, "caught_by", caught)
